@@ -5,6 +5,8 @@
 //! `parsim exec ...` re-executes one replay file (exactly, or searching schedules for it).
 //! Exit codes: 0 = nothing found, 3 = violation candidate written, 2 = harness error.
 
+#[path = "../../common/logger.rs"]
+mod logger;
 #[path = "../../common/rng.rs"]
 mod rng;
 #[path = "../../common/simsource.rs"]
@@ -60,6 +62,9 @@ struct ReplayFile {
     minimised: bool,
     #[serde(default)]
     notes: Vec<String>,
+    /// a `log` logger that formats every record was installed in the process that found this
+    #[serde(default)]
+    logger: bool,
 }
 
 struct Ctx {
@@ -68,6 +73,8 @@ struct Ctx {
     tier: String,
     replay_out: String,
 }
+
+static LOGGER_ON: std::sync::atomic::AtomicBool = std::sync::atomic::AtomicBool::new(false);
 
 std::thread_local! {
     static CTX: std::cell::RefCell<Option<Ctx>> = const { std::cell::RefCell::new(None) };
@@ -130,6 +137,7 @@ fn write_replay_and_exit(
         observed: Some(obs.clone()),
         minimised: false,
         notes: vec![],
+        logger: LOGGER_ON.load(std::sync::atomic::Ordering::Relaxed),
     };
     let path = path
         .replace("{i}", &run_index.to_string())
@@ -724,6 +732,49 @@ fn attach_pre_call(w: &mut Workload, pseed: u64, i: u64) {
         w: pw,
         par,
         last_single,
+        concurrent: false,
+        derived: tag,
+    }));
+}
+
+/// With probability ~7 % a second caller thread runs another encode (a small neighbour of `w`, half of the
+/// time with a source fault of its own) concurrently with the observed one.
+fn attach_concurrent_call(w: &mut Workload, pseed: u64, i: u64) {
+    let mut r = Rng::new(mix(mix(pseed, i), 0xC0_2C4A));
+    if !r.chance(0.07) || w.workers.is_none() {
+        return;
+    }
+    let mut small = w.clone();
+    small.pre = None;
+    small.faults.clear();
+    small.nfull = small.nfull.min(5);
+    small.pre_reads = 0;
+    small.probe_reads.clear();
+    let (mut pw, tag) = workload::neighbour(&small, &mut r);
+    pw.workers = Some(1 + r.below(2));
+    pw.env_workers = w.env_workers.clone();
+    pw.hashq_cap = w.hashq_cap;
+    if pw.faults.is_empty() && r.chance(0.5) {
+        let nreads = pw.plan_reads().len();
+        if nreads > 0 {
+            let k = r.below(nreads);
+            let f = if r.chance(0.5) {
+                workload::gen_out_of_range(&mut r, &pw, k)
+            } else {
+                Fault::ReadError {
+                    k,
+                    after_fill: false,
+                    reason: r.below(10) as u8,
+                }
+            };
+            pw.faults.push(f);
+        }
+    }
+    w.pre = Some(Box::new(workload::PreCall {
+        w: pw,
+        par: true,
+        last_single: false,
+        concurrent: true,
         derived: tag,
     }));
 }
@@ -826,6 +877,10 @@ fn cmd_run(args: &[String]) {
             replay_out,
         });
     });
+    if child % 2 == 1 {
+        logger::install();
+        LOGGER_ON.store(true, std::sync::atomic::Ordering::Relaxed);
+    }
     let plan = plan_for(&prop, tier, scheds);
     let pseed = mix(seed, fnv(&prop));
     let mut cov = Cov::default();
@@ -835,6 +890,9 @@ fn cmd_run(args: &[String]) {
         let mut w = gen(plan.purpose, tier, pseed, i);
         if prop == "C10P" {
             attach_pre_call(&mut w, pseed, i);
+        }
+        if matches!(prop.as_str(), "C05" | "C06" | "C06N" | "C03") && w.nfull < 20_000 {
+            attach_concurrent_call(&mut w, pseed, i);
         }
         // identical workloads always land in the same child, so per-child distinct counts add up exactly
         if w.hash() % nchild != child {
@@ -871,6 +929,10 @@ fn cmd_exec(args: &[String]) {
     let file = arg(args, "--file").unwrap_or_else(|| harness_error("--file required"));
     let text = std::fs::read_to_string(file).unwrap_or_else(|e| harness_error(&format!("cannot read {file}: {e}")));
     let rf: ReplayFile = serde_json::from_str(&text).unwrap_or_else(|e| harness_error(&format!("bad replay file: {e}")));
+    if rf.logger {
+        logger::install();
+        LOGGER_ON.store(true, std::sync::atomic::Ordering::Relaxed);
+    }
     let search: u64 = arg(args, "--search").unwrap_or("0").parse().unwrap();
     let sseed: u64 = arg(args, "--search-seed").unwrap_or("1").parse().unwrap();
     let replay_out = arg(args, "--replay-out").unwrap_or("/verif/replays/exec-out.json").to_owned();
